@@ -183,6 +183,7 @@ def make_pool(rng: PlanRng):
     pool["lbs"] = float(sig(rng.uniform(0.05, 0.3)))
     pool["ubs0"] = float(sig(rng.uniform(1.0, 4.0)))
     pool["ubs1"] = float(sig(rng.uniform(5.0, 10.0)))
+    pool["ubinf"] = float("inf")        # lifting an upper bound again
     for k in ks:
         pool[f"lb{k}a"] = sig(rng.uniform(0.05, 0.5, k))
         pool[f"ub{k}a"] = sig(rng.uniform(1.0, 4.0, k))
@@ -255,7 +256,7 @@ def sym_apply(sym: Sym, op, meta):
     if op.get("reject"):
         return sym.has_sys or m == "register_system"
     def big_ub(r):
-        return isinstance(r, str) and (r == "ubs1" or r.endswith("b"))
+        return isinstance(r, str) and (r in ("ubs1", "ubinf") or r.endswith("b"))
 
     def big_lb(r):
         return isinstance(r, str) and r.endswith("B")
@@ -695,8 +696,8 @@ def random_mutator(rng: PlanRng, sym: Sym, meta, first=False, allow_reject=False
 
     def m_bounds():
         lb = rng.choice([None, "lbs", f"lb{k}a", f"lb{k}i", f"lb{k}B"], p=[3, 1, 2, 0.5, 0.8])
-        ub = rng.choice([None, "ubs0", "ubs1", f"ub{k}a", f"ub{k}b", f"ub{k}i"],
-                        p=[1, 1, 1, 2, 2, 1.5])
+        ub = rng.choice([None, "ubs0", "ubs1", f"ub{k}a", f"ub{k}b", f"ub{k}i", "ubinf"],
+                        p=[1, 1, 1, 2, 2, 1.5, 0.9])
         if lb == f"lb{k}B":
             ub = rng.choice(["ubs1", f"ub{k}b"])     # lower and upper bound raised together
         if lb is None and ub is None:
